@@ -225,7 +225,9 @@ class DiffXReader(object):
 
                     try:
                         section['metadata'] = json.loads(content)
-                    except ValueError as e:
+                    except (ValueError, RecursionError) as e:
+                        # RecursionError: metadata nested too deeply for
+                        # the JSON decoder.
                         raise DiffXParseError(
                             'JSON metadata could not be parsed: %s' % e,
                             linenum=linenum)
